@@ -230,7 +230,7 @@ RUN_PROFILE = {
     "maximize": True,
     "max_wrappers": 1,
     "generators": ["BestPerDeme", "NBC", "NBCLocal", "Scripted"],
-    "families": ["sphere", "rastrigin", "step", "linear", "abssum", "twobasin"],
+    "families": ["sphere", "rastrigin", "step", "linear", "abssum", "twobasin", "offset"],
 }
 
 
